@@ -170,7 +170,7 @@ def h_operator(B, shape, dist, which, cplx):
             [sum(list(np.asarray(y, dtype=object).reshape(-1)), 0) * cod.scalar_dvol], rel=1e-9)
 
 
-def h_product(B, which):
+def _product_body(B, which):
     """transform acting on ONE sub-space of a product domain whose other sub-space has total volume != 1"""
     d0 = ift.RGSpace(2, distances=0.3)
     d1 = ift.RGSpace(4, distances=0.5)
@@ -194,6 +194,15 @@ def h_product(B, which):
     back = np.asarray(op.inverse_times(fy).val.val, dtype=object)
     B.close("zero pixel of the back transform == integral of the harmonic field over the transformed sub-space",
             [back[i, 0] for i in range(2)], [sum(list(yo[i, :]), 0) * cod[1].scalar_dvol for i in range(2)], rel=1e-9)
+
+
+def h_product(B, which, convention="non_canonical_hartley"):
+    """the sub-space transform under both Hartley conventions (the native dispatch has one code path per convention)"""
+    _set_convention(convention)
+    try:
+        _product_body(B, which)
+    finally:
+        _set_convention("non_canonical_hartley")
 
 
 def h_backends(B, shape, convention):
@@ -263,6 +272,7 @@ def scenarios(tier, seed):
              ("operator", {"shape": [4], "dist": [0.5], "which": "hartley", "cplx": False}),
              ("operator", {"shape": [2, 4], "dist": [0.5, 0.25], "which": "hartley", "cplx": False}),
              ("product", {"which": "fft"}), ("product", {"which": "hartley"}),
+             ("product", {"which": "hartley", "convention": "canonical_hartley"}),
              ("backends", {"shape": [4], "convention": "non_canonical_hartley"}),
              ("backends", {"shape": [2, 4], "convention": "canonical_hartley"}),
              ("smoothing", {"shape": [4], "dist": [0.5], "sigma": 0.3})]
